@@ -102,6 +102,7 @@ func VerifyFunc(pkg *Pkg, cs *Contracts, key string) (fx *FnCtx, err error) {
 	if decl.Body == nil {
 		return fx, fmt.Errorf("%s: no body", key)
 	}
+	fx.stmtAssertHit = map[*Clause]bool{}
 	fx.loopOrd = numberLoops(decl.Body)
 	fx.localTypes = map[string]types.Type{}
 	ast.Inspect(decl.Body, func(n ast.Node) bool {
@@ -164,6 +165,11 @@ func VerifyFunc(pkg *Pkg, cs *Contracts, key string) (fx *FnCtx, err error) {
 			}
 		}
 		st.named[name] = v
+		// reference-typed parameters denote objects that exist at entry (or nil)
+		switch p.Type().Underlying().(type) {
+		case *types.Pointer, *types.Map:
+			st.facts = append(st.facts, "(or (= "+c+" 0) (select "+fx.heapInitConst(allocHeap, allocSort)+" "+c+"))")
+		}
 		fx.modelVars = append(fx.modelVars, c)
 	}
 	// results
@@ -221,6 +227,13 @@ func VerifyFunc(pkg *Pkg, cs *Contracts, key string) (fx *FnCtx, err error) {
 		}
 		outs = append(outs, fx.drainPending()...)
 	}
+	for _, cs := range fc.StmtAsserts {
+		for _, c := range cs {
+			if !fx.stmtAssertHit[c] {
+				return fx, fmt.Errorf("%s: statement assert [%s] matched no statement (anchor text changed?)", key, c.Label)
+			}
+		}
+	}
 	return fx, nil
 }
 
@@ -256,6 +269,22 @@ func (fx *FnCtx) finish(st *State) {
 		if v, ok := fx.entry.named[p.Name]; ok {
 			env.named[p.Name] = v
 		}
+	}
+	for _, mc := range fx.fc.MustCalls {
+		var disj []string
+		for _, rec := range st.calls {
+			if rec.key != mc.Callee {
+				continue
+			}
+			e2 := *env
+			e2.bound = rec.named
+			disj = append(disj, fx.specBool(&e2, mc.Expr))
+		}
+		goal := "false"
+		if len(disj) > 0 {
+			goal = "(or " + strings.Join(disj, " ") + " false)"
+		}
+		fx.emit(st, "must-call("+mc.Callee+")["+mc.Label+"]", "must-call", mc.Tags, goal, mc.Src, strings.Join(lastN(st.trace, 1), "; "))
 	}
 	for _, e := range fx.fc.Ensures {
 		goal := fx.specBool(env, e.Expr)
